@@ -6,8 +6,8 @@
 package wire
 
 import (
-	"crypto/cipher"
 	"bytes"
+	"crypto/cipher"
 	"crypto/sha256"
 	"errors"
 	"fmt"
@@ -165,7 +165,9 @@ func pool(gr *grp, t *core.Tape) []val {
 	})
 	// Pick/Embed under a stream whose first bytes are all ones: candidates at the top of the coordinate
 	// range (for P-256, x >= p needs the first four bytes ff; a random stream gets there once in 2^32)
-	ffStream := func() cipher.Stream { return &prefixStream{prefix: []byte{0xff, 0xff, 0xff, 0xff, 0xff, 0xff, 0xff, 0xff}, tail: kit.Ed().XOF(t.Bytes("val", 16))} }
+	ffStream := func() cipher.Stream {
+		return &prefixStream{prefix: []byte{0xff, 0xff, 0xff, 0xff, 0xff, 0xff, 0xff, 0xff}, tail: kit.Ed().XOF(t.Bytes("val", 16))}
+	}
 	addP("picked-top-of-range", func() kyber.Point { return g.Point().Pick(ffStream()) })
 	addP("embedded-top-of-range", func() kyber.Point {
 		p := g.Point()
@@ -591,6 +593,12 @@ func useAccepted(gr *grp, p kyber.Point, raw []byte) (string, *core.Violation) {
 		_ = p.Equal(g.Point().Null())
 		_ = p.String()
 		_ = p.Clone()
+		// embedding is an optional capability ("unsupported operation" panics are documented for the
+		// pairing groups): only where EmbedLen works, Data must - an error is fine, a panic is not (seed C04h)
+		el := 0
+		if core.Guard(func() { el = p.EmbedLen() }) == nil && el > 0 {
+			_, _ = p.Data()
+		}
 		reenc, _ = p.MarshalBinary()
 	}); pn != nil {
 		return "", viol("C04", "usable", "accepted-point-panics-later/"+gr.name, "a point accepted from %x panicked when used afterwards: %v | %s", raw, pn, core.LastStack())
@@ -789,6 +797,8 @@ func runC04(t *core.Tape, tier string, info *core.RunInfo) *core.Violation {
 		info.Faults["structured-corruption"]++
 		if err != nil {
 			verdict = append(verdict, 'r')
+			// the same refused bytes decoded into a receiver that HELD a valid value: observation only
+			_ = refusedIntoUsed(gr, v, b, info)
 			continue
 		}
 		verdict = append(verdict, 'a')
@@ -1048,4 +1058,65 @@ func (p *prefixStream) XORKeyStream(dst, src []byte) {
 		p.used++
 		dst[i] = src[i] ^ b
 	}
+}
+
+// refusedIntoUsed decodes refused bytes into a receiver that holds a copy of the valid value v and
+// looks at what the receiver is afterwards. OBSERVATION ONLY (probes): on the pinned tree 21 of the 24
+// group instances leave a receiver that no longer encodes to something decodable (or that panics when
+// used) after a refused decode - the usual Go convention that a failed Unmarshal leaves the receiver
+// unspecified. C03 speaks of values produced by the API's constructors and arithmetic; it makes no
+// promise about a receiver after an error, so seed C03h (P-256 joins the others) is not a violation
+// the checks may raise (DESIGN 11, wave 5).
+func refusedIntoUsed(gr *grp, v val, b []byte, info *core.RunInfo) *core.Violation {
+	g := gr.g
+	if v.isPoint() {
+		r := v.p.Clone()
+		var err error
+		if pn := core.Guard(func() { err = r.UnmarshalBinary(b) }); pn != nil || err == nil {
+			return nil // the panic / the acceptance is judged by the fresh-receiver path
+		}
+		var enc []byte
+		var merr, derr error
+		q := g.Point()
+		if pn := core.Guard(func() {
+			enc, merr = r.MarshalBinary()
+			if merr == nil {
+				derr = q.UnmarshalBinary(enc)
+			}
+			_ = g.Point().Add(r, r)
+			_ = g.Point().Neg(r)
+		}); pn != nil {
+			info.Probe("receiver-unusable-after-refused-decode:" + gr.name)
+			return nil
+		}
+		if merr != nil || derr != nil {
+			info.Probe("receiver-encoding-does-not-decode-after-refused-decode:" + gr.name)
+			return nil
+		}
+		info.Probe("receiver-checked-after-refused-decode")
+		return nil
+	}
+	r := v.s.Clone()
+	var err error
+	if pn := core.Guard(func() { err = r.UnmarshalBinary(b) }); pn != nil || err == nil {
+		return nil
+	}
+	var enc []byte
+	var merr, derr error
+	q := g.Scalar()
+	if pn := core.Guard(func() {
+		enc, merr = r.MarshalBinary()
+		if merr == nil {
+			derr = q.UnmarshalBinary(enc)
+		}
+		_ = g.Scalar().Add(r, r)
+	}); pn != nil {
+		info.Probe("receiver-unusable-after-refused-decode:" + gr.name)
+		return nil
+	}
+	if merr != nil || derr != nil {
+		info.Probe("receiver-encoding-does-not-decode-after-refused-decode:" + gr.name)
+		return nil
+	}
+	return nil
 }
